@@ -278,10 +278,13 @@ struct decoder_greedy<E, T, true>
         v.resize(0);
         while(true)
         {
+            const uint8_t* element = pos;
             v.push_back(T());
             if (!decoder<E, T>::decode(v.back(), pos, end))
             {
+                /// bytes of an incomplete last element stay unread, so the message is not reported as decoded
                 v.pop_back();
+                pos = element;
                 return true;
             }
         }
